@@ -494,10 +494,22 @@ func keyChain(v ssa.Value, d int) string {
 			} else {
 				v = nil
 			}
+		case *ssa.FreeVar:
+			if o := resolveOrigin(theCtx, x, 4); o != nil && o != ssa.Value(x) {
+				v = o
+			} else {
+				v = nil
+			}
 		case *ssa.UnOp:
 			if al, ok := x.X.(*ssa.Alloc); ok && x.Op == token.MUL {
 				if st := cellStores(al); len(st) == 1 {
 					v = st[0]
+					continue
+				}
+			}
+			if _, isFV := x.X.(*ssa.FreeVar); isFV && x.Op == token.MUL {
+				if o := resolveOrigin(theCtx, x, 6); o != nil && o != ssa.Value(x) {
+					v = o
 					continue
 				}
 			}
@@ -526,7 +538,7 @@ func extraRepoKey(c *Ctx, r *Report, rule string) {
 		if !strings.HasSuffix(fnPkgPath(f), "internal/adapter/discovery") || strings.Contains(fname(f), "Test") {
 			continue
 		}
-		if f.Signature.Recv() == nil || !isNamed(f.Signature.Recv().Type(), "internal/adapter/discovery", "StaticEndpointRepository") {
+		if top := topParent(f); top.Signature.Recv() == nil || !isNamed(top.Signature.Recv().Type(), "internal/adapter/discovery", "StaticEndpointRepository") {
 			continue
 		}
 		isRepoMap := func(m ssa.Value) bool {
